@@ -90,16 +90,24 @@ theorem mem_keyUniverse {E : Env} {S0 : KVs} {f n : String} (hf : f ∈ allFiles
 
 /-- the environment does not itself produce the model's out-of-fuel marker -/
 def FuelFree (E : Env) : Prop :=
-  (∀ b s, E.extend b s ≠ .panic fuelMark) ∧ (∀ f s, fsLookup f E.fs = some (.panic s) → s ≠ fuelMark)
+  (∀ b s, E.extend b s ≠ .panic fuelMark) ∧ (∀ f s, fsPanics E.fs f s → s ≠ fuelMark)
 
 theorem baseFromFile_panic {fs : FS} {f ref s : String} (h : baseFromFile fs f ref = .panic s) :
-    fsLookup f fs = some (.panic s) := by
+    fsPanics fs f s := by
   unfold baseFromFile at h
-  split at h <;> try cases h
-  · rename_i hl; exact hl
+  split at h
+  · cases h
+  · cases h
+  · rename_i s' hl
+    injection h with h; subst h
+    exact ⟨_, hl, rfl⟩
   · split at h <;> try cases h
     split at h <;> try cases h
     split at h <;> cases h
+  · rename_i doc site hl
+    split at h <;> try cases h
+    split at h <;> try cases h
+    exact ⟨_, hl, rfl⟩
 
 theorem trackerAdd_some {tr tr' : List Key} {k : Key} (h : trackerAdd tr k = some tr') :
     k ∉ tr ∧ tr' = tr ++ [k] := by
@@ -112,12 +120,11 @@ theorem parseExtends_panic {e : Val} {s : String} (h : parseExtends e = .panic s
   unfold parseExtends at h
   split at h <;> try cases h
   split at h
-  · split at h <;> try cases h
-    rfl
-  · cases h; rfl
+  · split at h <;> cases h
+  · cases h
 
-theorem resolveBase_panic {E : Env} {name ref : String} {file : Option String} {S : KVs} {s : String}
-    (h : resolveBase E name ref file S = .panic s) : ∃ f, fsLookup f E.fs = some (.panic s) := by
+theorem resolveBase_panic {E : Env} {cur name ref : String} {file : Option String} {S : KVs} {s : String}
+    (h : resolveBase E cur name ref file S = .panic s) : ∃ f, fsPanics E.fs f s := by
   unfold resolveBase at h
   cases file with
   | none => simp only at h; split at h <;> cases h
@@ -128,14 +135,14 @@ theorem resolveBase_panic {E : Env} {name ref : String} {file : Option String} {
     exact ⟨f, baseFromFile_panic hb⟩
 
 /-- one unfolding of `applySvc` on a panicking run -/
-theorem applySvc_panic_cases {E : Env} {fuel : Nat} {n : String} {cur : KVs} {tr : List Key} {s : String}
-    (h : applySvc E (fuel + 1) n cur tr = .panic s) :
+theorem applySvc_panic_cases {E : Env} {fuel : Nat} {cf n : String} {cur : KVs} {tr : List Key} {s : String}
+    (h : applySvc E (fuel + 1) cf n cur tr = .panic s) :
     s = panicSite ∨
     (∃ svc e ref file, lookup n cur = some (.map svc) ∧ lookup "extends" svc = some e ∧
       parseExtends e = .ok (ref, file) ∧
-      (resolveBase E n ref file cur = .panic s ∨
-       ∃ svcs key same tr', resolveBase E n ref file cur = .ok (svcs, key, same) ∧ trackerAdd tr key = some tr' ∧
-         (applySvc E fuel ref svcs tr' = .panic s ∨ (∃ b, E.extend b svc = .panic s) ∨ s = panicSite))) := by
+      (resolveBase E cf n ref file cur = .panic s ∨
+       ∃ svcs key same tr', resolveBase E cf n ref file cur = .ok (svcs, key, same) ∧ trackerAdd tr key = some tr' ∧
+         (applySvc E fuel (nextFile cf file) ref svcs tr' = .panic s ∨ (∃ b, E.extend b svc = .panic s) ∨ s = panicSite))) := by
   simp only [applySvc] at h
   split at h <;> try cases h
   rename_i svc hsvc
@@ -171,45 +178,46 @@ theorem applySvc_panic_cases {E : Env} {fuel : Nat} {n : String} {cur : KVs} {tr
 
 theorem panicSite_ne_fuelMark : panicSite ≠ fuelMark := by decide
 
-/-- the key recorded for a step lies in the universe, and the mapping recursed into has known names -/
-theorem resolveBase_key {E : Env} {S0 cur svcs : KVs} {n ref : String} {file : Option String} {key : Key} {same : Bool}
-    (hk : KeysSub E S0 cur) (hn : lookup n cur ≠ none)
-    (h : resolveBase E n ref file cur = .ok (svcs, key, same)) :
-    key ∈ keyUniverse E S0 ∧ KeysSub E S0 svcs := by
+/-- the key recorded for a step lies in the universe, the mapping recursed into has known names, and the
+file the recursion continues in is a known file -/
+theorem resolveBase_key {E : Env} {S0 cur svcs : KVs} {cf n ref : String} {file : Option String} {key : Key} {same : Bool}
+    (hcf : cf ∈ allFiles E) (hk : KeysSub E S0 cur) (hn : lookup n cur ≠ none)
+    (h : resolveBase E cf n ref file cur = .ok (svcs, key, same)) :
+    key ∈ keyUniverse E S0 ∧ KeysSub E S0 svcs ∧ nextFile cf file ∈ allFiles E := by
   obtain ⟨_, _, hc⟩ := resolveBase_ok h
-  rcases hc with ⟨_, hS, _, hkey⟩ | ⟨_, f, _, hfs, hkey⟩
-  · subst hkey; subst hS
-    exact ⟨mem_keyUniverse (by simp [allFiles]) (hk n hn), hk⟩
-  · subst hkey
+  rcases hc with ⟨_, hS, hf, hkey⟩ | ⟨_, f, hf, hfs, hkey⟩
+  · subst hkey; subst hS; subst hf
+    exact ⟨mem_keyUniverse hcf (hk n hn), hk, hcf⟩
+  · subst hkey; subst hf
     obtain ⟨a, b⟩ := fileServices_keysSub (S0 := S0) hfs
-    exact ⟨mem_keyUniverse b (hk n hn), a⟩
+    exact ⟨mem_keyUniverse hcf (hk n hn), a, b⟩
 
 theorem applySvc_no_fuel (E : Env) (hE : FuelFree E) (S0 : KVs) :
-    ∀ (fuel : Nat) (n : String) (cur : KVs) (tr : List Key),
-      KeysSub E S0 cur → tr.Nodup → (∀ k ∈ tr, k ∈ keyUniverse E S0) →
+    ∀ (fuel : Nat) (cf n : String) (cur : KVs) (tr : List Key),
+      cf ∈ allFiles E → KeysSub E S0 cur → tr.Nodup → (∀ k ∈ tr, k ∈ keyUniverse E S0) →
       (keyUniverse E S0).length + 1 ≤ fuel + tr.length →
-      applySvc E fuel n cur tr ≠ .panic fuelMark ∧
-      ∀ v cur', applySvc E fuel n cur tr = .ok (v, cur') → KeysSub E S0 cur' := by
+      applySvc E fuel cf n cur tr ≠ .panic fuelMark ∧
+      ∀ v cur', applySvc E fuel cf n cur tr = .ok (v, cur') → KeysSub E S0 cur' := by
   intro fuel
   induction fuel with
   | zero =>
-    intro n cur tr _ hnd hsub hlen
+    intro cf n cur tr _ _ hnd hsub hlen
     have := nodup_length_le tr _ hnd hsub
     omega
   | succ fuel ih =>
-    intro n cur tr hk hnd hsub hlen
+    intro cf n cur tr hcf hk hnd hsub hlen
     -- facts about the recursive call, shared by both halves
     have hrec : ∀ svc e ref file svcs key same tr', lookup n cur = some (.map svc) →
         lookup "extends" svc = some e → parseExtends e = .ok (ref, file) →
-        resolveBase E n ref file cur = .ok (svcs, key, same) → trackerAdd tr key = some tr' →
-        applySvc E fuel ref svcs tr' ≠ .panic fuelMark ∧
-        (∀ v cur', applySvc E fuel ref svcs tr' = .ok (v, cur') → KeysSub E S0 cur') := by
+        resolveBase E cf n ref file cur = .ok (svcs, key, same) → trackerAdd tr key = some tr' →
+        applySvc E fuel (nextFile cf file) ref svcs tr' ≠ .panic fuelMark ∧
+        (∀ v cur', applySvc E fuel (nextFile cf file) ref svcs tr' = .ok (v, cur') → KeysSub E S0 cur') := by
       intro svc e ref file svcs key same tr' h1 _ _ h4 h5
       have hn : lookup n cur ≠ none := by rw [h1]; simp
-      obtain ⟨hkey, hks⟩ := resolveBase_key hk hn h4
+      obtain ⟨hkey, hks, hnf⟩ := resolveBase_key hcf hk hn h4
       obtain ⟨hnotin, htr'⟩ := trackerAdd_some h5
       subst htr'
-      refine ih ref svcs (tr ++ [key]) hks ?_ ?_ ?_
+      refine ih (nextFile cf file) ref svcs (tr ++ [key]) hnf hks ?_ ?_ ?_
       · rw [List.nodup_append]
         refine ⟨hnd, by simp, ?_⟩
         intro a ha b hb
@@ -255,7 +263,7 @@ theorem applyAll_no_fuel (E : Env) (hE : FuelFree E) (S0 : KVs) :
   | nil => intro cur _ _; simp [applyAll]
   | cons n ns ih =>
     intro cur hk hn
-    obtain ⟨h1, h2⟩ := applySvc_no_fuel E hE S0 (fuelFor E S0) n cur [] hk List.nodup_nil
+    obtain ⟨h1, h2⟩ := applySvc_no_fuel E hE S0 (fuelFor E S0) E.mainFile n cur [] (by simp [allFiles]) hk List.nodup_nil
       (fun k hk' => by cases hk') (by simp [fuelFor])
     simp only [applyAll]
     split
@@ -268,5 +276,88 @@ theorem applyAll_no_fuel (E : Env) (hE : FuelFree E) (S0 : KVs) :
       injection h with h
       subst h
       exact h1 hs
+
+/-! ## where a panic can come from -/
+
+theorem parseExtends_no_panic (e : Val) (s : String) : parseExtends e ≠ .panic s := by
+  unfold parseExtends
+  intro h
+  split at h <;> try cases h
+  split at h
+  · split at h <;> cases h
+  · cases h
+
+/-- a successful `applySvc` returns `null` or a mapping -/
+theorem applySvc_ok_shape {E : Env} : ∀ {fuel : Nat} {cf n : String} {cur : KVs} {tr : List Key} {v : Val} {cur' : KVs},
+    applySvc E fuel cf n cur tr = .ok (v, cur') → v = .null ∨ ∃ m, v = .map m := by
+  intro fuel
+  cases fuel with
+  | zero => intro cf n cur tr v cur' h; simp [applySvc] at h
+  | succ fuel =>
+    intro cf n cur tr v cur' h
+    rcases applySvc_ok_cases h with ⟨_, h2, _⟩ | ⟨_, h2, _⟩ | ⟨svc, _, _, h3, _⟩ |
+      ⟨svc, e, ref, file, svcs, key, same, tr', base, svcs', _, _, _, _, _, _, h7⟩
+    · exact Or.inl h2
+    · exact Or.inl h2
+    · exact Or.inr ⟨svc, h3⟩
+    · rcases h7 with ⟨_, hv, _⟩ | ⟨b, m, _, _, hv, _⟩
+      · exact Or.inr ⟨svc, hv⟩
+      · exact Or.inr ⟨_, hv⟩
+
+/-- a panic of `applySvc` is the out-of-fuel marker, a panic of the merge step, or a panic while loading a file -/
+theorem applySvc_panic_src (E : Env) : ∀ (fuel : Nat) (cf n : String) (cur : KVs) (tr : List Key) (s : String),
+    applySvc E fuel cf n cur tr = .panic s →
+    s = fuelMark ∨ (∃ b svc, E.extend b svc = .panic s) ∨ (∃ f, fsPanics E.fs f s) := by
+  intro fuel
+  induction fuel with
+  | zero => intro cf n cur tr s h; simp only [applySvc, Out.panic.injEq] at h; exact Or.inl h.symm
+  | succ fuel ih =>
+    intro cf n cur tr s h
+    simp only [applySvc] at h
+    split at h <;> try cases h
+    rename_i svc hsvc
+    split at h <;> try cases h
+    rename_i e he
+    split at h
+    · rename_i s' hp; exact absurd hp (parseExtends_no_panic e s')
+    · cases h
+    · rename_i ref file hp
+      split at h
+      · rename_i s' hr
+        injection h with h; subst h
+        exact Or.inr (Or.inr (resolveBase_panic hr))
+      · cases h
+      · rename_i svcs key same hr
+        split at h <;> try cases h
+        rename_i tr' ht
+        split at h
+        · rename_i s' hrec; injection h with h; subst h; exact ih _ _ _ _ _ hrec
+        · cases h
+        · rename_i base svcs' hrec
+          split at h
+          · cases h
+          · rename_i b
+            split at h
+            · rename_i s' hx; injection h with h; subst h; exact Or.inr (Or.inl ⟨b, svc, hx⟩)
+            · cases h
+            · cases h
+          · rename_i hnn hnm
+            rcases applySvc_ok_shape hrec with hb | ⟨m, hb⟩
+            · exact absurd hb (by intro e; subst e; exact hnn rfl)
+            · subst hb; exact absurd rfl (hnm m)
+
+theorem applyAll_panic_src (E : Env) (fuel : Nat) : ∀ (names : List String) (cur : KVs) (s : String),
+    applyAll E fuel names cur = .panic s →
+    s = fuelMark ∨ (∃ b svc, E.extend b svc = .panic s) ∨ (∃ f, fsPanics E.fs f s) := by
+  intro names
+  induction names with
+  | nil => intro cur s h; simp [applyAll] at h
+  | cons n ns ih =>
+    intro cur s h
+    simp only [applyAll] at h
+    split at h
+    · exact ih _ _ h
+    · cases h
+    · rename_i s' hs; injection h with h; subst h; exact applySvc_panic_src E fuel _ _ _ _ _ hs
 
 end CV.Extends
